@@ -10,19 +10,20 @@ VARIABLES c
 Kinds == {"matching_cost", "aggregation", "disparity", "refinement", "filter", "validation", "cost_volume_confidence", "multiscale"}
 IntVals == {I(n) : n \in {-2, -1, 0, 1, 2, 3, 4, 5, 6, 7, 8, 9}}
 FltVals == {F(m) : m \in {-1000, 0, 10, 500, 700, 999, 1000, 1500, 2000, 30000}}
-Universe == IntVals \cup FltVals \cup {S("NaN"), S("inf"), S("-inf"), S("x"), S("r"), S("mc-cnn"), S("sgm"), S("mc_cnn"), B(TRUE), Null}
+Universe == IntVals \cup FltVals \cup {S("NaN"), S("inf"), S("-inf"), S("x"), S("r"), S("g"), S("b"), S("mc-cnn"), S("sgm"), S("mc_cnn"), B(TRUE), Null}
 OneParamOk == {x \in [kind : Kinds, method : {"sad", "ssd", "census", "zncc", "cbca", "wta", "vfit", "quadratic", "median", "bilateral",
                                               "median_for_intervals", "cross_checking_accurate", "ambiguity", "risk", "std_intensity",
                                               "interval_bounds", "fixed_zoom_pyramid", "no_such_method"},
-                       pi : 0..4, v : Universe, mb : BOOLEAN] :
+                       pi : 0..4, v : Universe, mb : 0..2] :
                   /\ (x.method \in Methods(x.kind) \/ x.method = "no_such_method")
                   /\ x.pi <= Len(Params(x.kind, x.method))
                   /\ (x.pi = 0 => x.v = Null)
-                  /\ (x.mb => x.kind = "matching_cost")}
+                  /\ (x.mb # 0 => x.kind = "matching_cost")}
 CfgOf(x) == IF x.pi = 0 THEN <<>> ELSE <<<<Params(x.kind, x.method)[x.pi][1], x.v>>>>
-BandsOf(x) == IF x.mb THEN {"r", "g"} ELSE {}
+\* 0: monoband images; 1: both images hold bands r, g; 2: left holds r, g and right holds g, b
+BandsOf(x) == CASE x.mb = 0 -> <<{}, {}>> [] x.mb = 1 -> <<{"r", "g"}, {"r", "g"}>> [] OTHER -> <<{"r", "g"}, {"g", "b"}>>
 \* a multiband image needs a band: add a valid one unless the varied parameter is the band itself
-FullCfg(x) == IF x.mb /\ ~(x.pi # 0 /\ Params(x.kind, x.method)[x.pi][1] = "band") THEN CfgOf(x) \o <<<<"band", S("r")>>>> ELSE CfgOf(x)
+FullCfg(x) == IF x.mb # 0 /\ ~(x.pi # 0 /\ Params(x.kind, x.method)[x.pi][1] = "band") THEN CfgOf(x) \o <<<<"band", S("g")>>>> ELSE CfgOf(x)
 Init == c \in OneParamOk
 Next == UNCHANGED c
 Emit == PrintT(<<"BEH", ToJson([kind |-> c.kind, method |-> c.method, mkey |-> MethodKey(c.kind), cfg |-> FullCfg(c), multiband |-> c.mb,
@@ -31,8 +32,8 @@ Emit == PrintT(<<"BEH", ToJson([kind |-> c.kind, method |-> c.method, mkey |-> M
 \* theorems of the table itself
 T_DefaultsAreValid == \A i \in 1..Len(Params(c.kind, c.method)) :
                           Params(c.kind, c.method)[i][2] # Absent =>
-                             Dom(c.kind, c.method, Params(c.kind, c.method)[i][1], Params(c.kind, c.method)[i][2], {}) = "yes"
-T_EmptyCfgAccepted == (c.method \in Methods(c.kind)) => StepVerdict(c.kind, c.method, <<>>, {}) = "accept"
+                             Dom(c.kind, c.method, Params(c.kind, c.method)[i][1], Params(c.kind, c.method)[i][2], <<{}, {}>>) = "yes"
+T_EmptyCfgAccepted == (c.method \in Methods(c.kind)) => StepVerdict(c.kind, c.method, <<>>, <<{}, {}>>) = "accept"
 T_UnknownMethodRejected == (c.method = "no_such_method") => StepVerdict(c.kind, c.method, FullCfg(c), BandsOf(c)) = "reject"
 \* completing twice adds nothing: after the defaults are filled in nothing is missing
 T_CompleteIdempotent ==
